@@ -76,6 +76,17 @@ def check(ctx, rep):
                     tests.append(('Double', n.lineno))
                 elif 'Integer' in t or 'Single' in t:
                     tests.append(('other', n.lineno))
+        # the wider-type test (and the string test) must look at *both* operands: a test of one operand
+        # only makes the result type depend on the operand order (x*y computed in double, y*x in single)
+        for n in own_nodes(fn):
+            if isinstance(n, ast.If):
+                for kind in ('Double', 'String'):
+                    calls = [c for c in ast.walk(n.test) if isinstance(c, ast.Call) and norm(c.func) == 'isinstance' and len(c.args) == 2
+                             and norm(c.args[1]).split('.')[-1] == kind]
+                    if calls:
+                        who = sorted(set(norm(c.args[0]) for c in calls))
+                        rep.ob('promotion.both-operands', 'values.%s: the %s test examines both operands' % (name, kind), who == ['left', 'right'],
+                               'only %s is tested: the result type depends on the operand order' % ', '.join(who), ctx.where(n))
         dbl = [l for k, l in tests if k == 'Double']
         oth = [l for k, l in tests if k == 'other']
         rep.ob('promotion.double-first', 'values.%s tests for Double operands before narrower types' % name,
@@ -162,6 +173,8 @@ def variants(ctx):
            in_fn('Float.ineg', lambda fn: mu.replace_expr(fn, mu.text_is('bytearray(self._buffer)[-2] ^ 128'), 'bytearray(self._buffer)[-2] | 128')),
            expect='sign.neg-is-involution'),
         Va('mul-single-test-first', 'break', V, in_fn('mul', _swap_double_single), expect='promotion'),
+        Va('div-double-test-left-only', 'break', V,
+           in_fn('div', lambda fn: mu.replace_expr(fn, mu.text_is('isinstance(left, numbers.Double) or isinstance(right, numbers.Double)'), 'isinstance(left, numbers.Double)')), expect='promotion.both-operands'),
         Va('add-den-zero-check-late', 'break', N, in_fn('Float._add_den', _move_zero_checks), expect='add.zero'),
         Va('sign-returns-two', 'break', N,
            in_fn('Float.sign', lambda fn: mu.replace_stmt(fn, mu.text_is('return 1'), 'return 2')), expect='sign.values'),
